@@ -73,6 +73,8 @@ impl NodeDrive {
     }
     pub fn storage_data_disk(db: &Database, reclame_space: bool, db_name: &String) -> u32 {
         let keys_to_update = get_keys_to_update(db, reclame_space);
+        #[cfg(nundb_verif)]
+        crate::verif_hooks::record_key_order(keys_to_update.iter().map(|(k, _)| k.clone()).collect());
         let mut keys_file = get_key_file_append_mode(&db_name, reclame_space);
         let (mut values_file, current_value_file_size) =
             get_values_file_append_mode(&db_name, reclame_space);
